@@ -1126,6 +1126,11 @@ func (c1 complexConst) binaryOp(op ast.OperatorType, c2 constant) (constant, err
 		ad, _ := n1.r.binaryOp(ast.OperatorMultiplication, n2.i)
 		re, _ := ac.binaryOp(ast.OperatorAddition, bd)
 		im, _ := bc.binaryOp(ast.OperatorSubtraction, ad)
+		// The parts are divided as rationals: an integer s would truncate them.
+		switch s.(type) {
+		case int64Const, intConst:
+			s, _ = toSameConstImpl(s, newRatConst(1, 1))
+		}
 		c := complexConst{}
 		c.r, _ = re.binaryOp(ast.OperatorDivision, s)
 		c.i, _ = im.binaryOp(ast.OperatorDivision, s)
